@@ -4,7 +4,7 @@ from ctypes import c_void_p
 
 from hypothesis import strategies as st
 
-from pyref import ec
+from pyref import ec, rangeproof as R
 from vf import gens
 from vf.core import Test
 from vf.lib import buf
@@ -36,6 +36,13 @@ def msg_bytes(seed, n):
 
 
 # ------------------------------------------------------------------------------------------------ generator
+# a message one of whose 32-byte blocks is (key-stream block of that slot) XOR t: the slot's scalar becomes t -> 0 or >= n.  Resolved in run_sign with the
+# reference's sender-side derivation (pyref.rangeproof.stream, byte-exact with the library).
+collide_msg = st.builds(lambda s, full: {"kind": "collide", "seed": s, "full": full}, st.integers(0, 1 << 30), st.booleans())
+COLLIDE_T = {"0": 0, "n": N, "n+1": N + 1, "max": (1 << 256) - 1}
+COLLIDE_SLOT = ["first", "mid", "last", "any"]
+
+
 @st.composite
 def sign_case(draw):
     value = draw(gens.u64_edge)
@@ -58,7 +65,8 @@ def sign_case(draw):
     blind = W(draw, [(8, gens.seckey_valid), (1, gens.u256_edge), (1, st.sampled_from([0, N, N + 1, gens.M256, N - 1, 1]))])
     msg = W(draw, [(4, st.just({"kind": "none"})),
                    (2, st.builds(lambda h: {"kind": "bytes", "hex": h}, gens.message(4000))),
-                   (3, st.builds(lambda d, s: {"kind": "cap", "delta": d, "seed": s}, st.sampled_from([-1, 0, 0, 1, -32, -33, 32]), st.integers(0, 1 << 30)))])
+                   (3, st.builds(lambda d, s: {"kind": "cap", "delta": d, "seed": s}, st.sampled_from([-1, 0, 0, 1, -32, -33, 32]), st.integers(0, 1 << 30))),
+                   (1, collide_msg)])
     bufk = draw(st.sampled_from(["full"] * 8 + ["max"] * 4 + ["max-1", "zero", "64", "65", "exact", "exact", "exact-1", "exact-1", "rand", "rand"]))
     if bufk == "rand":
         bufk = "rand:%d" % draw(st.integers(0, RC.MAXPROOF))
@@ -72,6 +80,12 @@ def sign_case(draw):
         mn, exp, min_bits = 0, 0, 64                                             # 64-bit mantissa
     elif sel % 16 == 2:
         mn = value                                                               # min_value == value
+    elif sel % 16 == 3:
+        # message block colliding with the key stream, on parameters that give at least two rings
+        msg = draw(collide_msg)
+        mn, exp, min_bits, bufk = 0, 0, min(64, max(3, min_bits)), "full"
+        value &= U64 >> 1
+        blind = blind % (N - 1) + 1
     return {"value": value, "min_value": mn, "exp": exp, "min_bits": min_bits, "blind": blind, "nonce": nonce, "msg": msg,
             "extra": draw(st.integers(0, 100).flatmap(lambda n: gens.hexbytes(n))), "buf": bufk, "gen": draw(RC.gen_spec), "other": other}
 
@@ -144,7 +158,7 @@ def run_sign(env, case):
     # ---- resolve the symbolic buffer size / message (both may need the actual proof of the message-less parameter set)
     bk = case["buf"]
     probe = None
-    need_probe = bk in ("exact", "exact-1") or case["msg"]["kind"] == "cap"
+    need_probe = bk in ("exact", "exact-1") or case["msg"]["kind"] in ("cap", "collide")
     if need_probe:
         rp, probe = sign(b"", RC.MAXPROOF)
         if rp != 1:
@@ -169,10 +183,27 @@ def run_sign(env, case):
         bufsize = int(bk.split(":")[1])
     classes.append("buf:" + bk.split(":")[0])
     mk = case["msg"]
+    collide = False
     if mk["kind"] == "none":
         msg = b""
     elif mk["kind"] == "bytes":
         msg = bytes.fromhex(mk["hex"])
+    elif mk["kind"] == "collide":
+        msg = b""
+        hdr = R.parse_header(probe) if probe is not None else None
+        if hdr is not None and hdr["mantissa"] >= 3:
+            # the sender's key stream for exactly these parameters (nonce, commitment, generator, header): slot k of the message is XORed with raw[k]
+            rsz = R.ring_sizes(hdr["mantissa"])
+            nslots = 4 * (len(rsz) - 1)
+            _, _, raw = R.stream(nonce, RC.commit_point(env, c), mg[1], probe[:hdr["offset"]], rsz)
+            hs = RC.hsel("C09collide", sorted((kk, str(vv)) for kk, vv in case.items()))       # slot and t by hash selector (uniform), see rp_common.hsel
+            slot, tname = COLLIDE_SLOT[hs % 4], sorted(COLLIDE_T)[(hs >> 4) % 4]
+            k = {"first": 0, "mid": nslots // 2, "last": nslots - 1}.get(slot, (hs >> 8) % nslots)
+            body = bytearray(msg_bytes(mk["seed"], 32 * nslots if mk["full"] else 32 * (k + 1)))
+            body[32 * k:32 * k + 32] = bytes(x ^ y for x, y in zip(raw[k], ec.i2b(COLLIDE_T[tname])))
+            msg = bytes(body)
+            collide = True
+            classes += ["msg_stream_collision", "collide:t=" + tname, "collide:slot=" + slot]
     else:
         if probe is None:
             msg = b""
@@ -199,6 +230,10 @@ def run_sign(env, case):
     if bk == "exact-1" and probe is not None and not msg:
         env.require(r == 0, "rangeproof_sign succeeded into a buffer one byte shorter than the proof it makes", need=len(probe), bufsize=bufsize)
     if r != 1:
+        if collide:
+            # a slot scalar that is 0 or >= n: the documented "can randomly fail ... retry with a different nonce" exit, reached on purpose.  Refusing is the
+            # correct outcome; if sign succeeds instead, every post-condition below (verify, rewind returns exactly the embedded message) must hold.
+            return nontrivial, classes + ["sign_failed", "collision_refused"]
         if region == "succeed":
             if not msg:
                 env.fail("rangeproof_sign failed on a documented-valid parameter set", value=v, min_value=mn, exp=exp, min_bits=mb, bufsize=bufsize, maxsz=maxsz)
@@ -339,6 +374,11 @@ def run_size(env, case):
 TESTS = [
     Test("sign_roundtrip", sign_case, run_sign, quick=5000, thorough=60000,
          must_cover=["region:fail", "region:succeed", "region:either", "sign_ok", "exact_value", "mantissa_odd", "mantissa_even", "mantissa=64", "value>=2^63",
-                     "min==value", "msg_at_capacity", "msg_too_long", "blind>=n", "buf:max", "buf:exact-1", "exp_reduced", "gen:h", "gen:parse", "gen:blinded", "gen:seed"]),
+                     "min==value", "msg_at_capacity", "msg_too_long", "blind>=n", "buf:max", "buf:exact-1", "exp_reduced", "gen:h", "gen:parse", "gen:blinded", "gen:seed",
+                     "msg_stream_collision", "collide:t=0", "collide:t=n", "collide:t=n+1", "collide:t=max", "collide:slot=first", "collide:slot=mid", "collide:slot=last"]),
+    # alternative code paths: the builtin clz / popcount variants an autotools build selects, and the alternative limb configurations
+    Test("sign_roundtrip_cfg", sign_case, run_sign, quick=500, thorough=4000, max_workers=3,
+         cfgs={"quick": ["builtins", "int64"], "thorough": ["builtins", "int64", "struct"]},
+         must_cover=["sign_ok", "value>=2^63", "mantissa=64"]),
     Test("max_size_bound", size_case, run_size, quick=1500, thorough=20000, must_cover=["value<max", "value==max"]),
 ]
